@@ -1,5 +1,5 @@
 """C14 -- see DESIGN.md section 4, C14."""
-from . import handlers
+from . import handlers, sqlunits
 
 LEVEL = "other"
 EXPLANATION = "trace obligations of the real handlers (layer L2) selected by the prefix C14/"
@@ -8,4 +8,4 @@ TRUSTED = []
 
 
 def units(tier):
-    return handlers.units_for("C14")
+    return sqlunits.units_for("C14") + handlers.units_for("C14")
